@@ -350,6 +350,12 @@ def _match_transpose(ctx, tr, val, ta):
         return False, 'exporter is not PitchExporterFactory.create(output_format)'
     t = val.args[0]
     r = F.callee(ctx, t, tr) if isinstance(t, ast.Call) else None
+    if isinstance(t, ast.Call) and not (r and r[0] == 'def' and r[1] is ta):
+        # a sibling entry point that is one expression (transpose_encoding_to_agnostic) is looked through once
+        t2 = F.expand_call(ctx, t, tr)
+        if t2 is not None:
+            t = t2
+            r = F.callee(ctx, t, tr) if isinstance(t, ast.Call) else None
     if not (r and r[0] == 'def' and r[1] is ta):
         return False, 'exported value is not transpose_agnostics(...)'
     b = F.bind_args(t, ta, False)
